@@ -87,9 +87,10 @@ def gen_cases(rng, ctx):
     # the real endpoint (Core::listen on a loopback port, TLS and QUIC) with live sessions of every transport: submission,
     # goodbye seen by each client (HTTP/1.1 close, HTTP/2 GOAWAY, QUIC close), completion after the last one is done.
     # The QUIC session races the listener that feeds it: repeated, because the order is the scheduler's choice
-    for mask in ([1, 2, 8, 16, 31, 27] + [4] * (10 if thorough else 5) + [5, 6, 12, 20]):
+    for mask in ([1, 2, 8, 16, 31, 27] + [4] * (10 if thorough else 5) + [5, 6, 12, 20, 32, 33, 48]):
         l = line("c19_front", [[mask]])
-        cases.append(Case(l, l, kind="endpoint:sessions-%d" % mask, nontrivial=mask != 0, meta={"front": True, "mask": mask}))
+        lm = line("c19_front", [[mask & 31]])
+        cases.append(Case(l, lm, kind="endpoint:sessions-%d" % mask, nontrivial=mask != 0, meta={"front": True, "mask": mask}))
     # the real binary (endpoint/src/main.rs) as a process: live sessions, SIGINT, what each client sees, the exit
     for mask in ([31, 2, 4, 1, 8, 16, 6] + ([31, 27, 21, 0] if thorough else [])):
         l = line("bin_run", [[1, mask, 0], list(b"u1"), list(b"p1")])
@@ -165,9 +166,13 @@ def judge(case, impl, model, spec, ctx):
         if impl == "996":
             ctx.setdefault("skipped_env", []).append(case.kind)
             return []
-        est, listener, wound, completion, early, accepts = untok(impl.split()[0])
+        est, listener, wound, completion, early, accepts, premature = untok(impl.split()[0])
         mask = case.meta["mask"]
         what = "real endpoint with live sessions {%s}, shutdown submitted" % ", ".join(v for k, v in NAMES.items() if mask & k)
+        if premature:
+            return [("violation", "real endpoint with its listener%s running and nothing submitted: waiting for completion returned within 300 ms "
+                                  "(a participant that registered before the wait is not counted)" % ("" if not (mask & 31) else " and sessions {%s}" % ", ".join(v for k, v in NAMES.items() if mask & k)))]
+        mask = mask & 31
         if est != mask:
             return [("disagree", "%s: only sessions %d of %d could be established" % (what, est, mask))]
         if not listener:
